@@ -1,7 +1,7 @@
 (* C06: preconditioned tasks.  Statements only; proofs in Feb/PrecondProofs.v *)
 From Coq Require Import List ZArith NArith Bool.
 Import ListNotations.
-From QV Require Import Cell.Spec Feb.Model Feb.Proofs Feb.PrecondProofs Feb.PrecondTrace.
+From QV Require Import Cell.Spec Feb.Model Feb.Proofs Feb.PrecondProofs Feb.PrecondTrace Feb.NoDup Feb.PrecondOnce.
 
 (* qthread_check_feb_preconds consumes only words that are full at that moment and parks on exactly one empty word *)
 Theorem precond_check_sound : forall febs k rem febs' rem',
@@ -42,6 +42,23 @@ Theorem precond_seen_was_full : forall (l : list (N * gop)) k info a,
             is_full (st_febs (exec (firstn j l))) a = true.
 Proof. exact seen_was_full. Qed.
 Print Assumptions precond_seen_was_full.
+
+(* precond_once: in every reachable state a spawned precondition task has been enqueued at most once (p_enq counts the
+   Enq events, lemma launch_count) and is in exactly one place: not enqueued and parked as a nascent waiter - on exactly
+   one waiter list of exactly one word, since blocked task ids are duplicate-free - or enqueued once and parked nowhere
+   (the launch batch is internal to a step: the loop invariant of qthread_precond_launch is PrecondOnce.loop_inv) *)
+Theorem precond_once : forall (l : list (N * gop)) (k : N) (i : pinfo),
+  lookup k (st_pre (exec l)) = Some i ->
+  (p_enq i <= 1)%nat /\
+  ((p_enq i = 0%nat /\ In k (parked (exec l))) \/ (p_enq i = 1%nat /\ ~ In k (parked (exec l)))) /\
+  NoDup (blocked_tids (exec l)).
+Proof. exact PrecondOnce.precond_once. Qed.
+Print Assumptions precond_once.
+
+Theorem enq_events_counted : forall b s s' evs k, launch s b = (s', evs) ->
+  (p_enq (info_of s' k) = p_enq (info_of s k) + enq_count k evs)%nat.
+Proof. exact launch_count. Qed.
+Print Assumptions enq_events_counted.
 
 (* step-local lemmas *)
 Theorem precond_safe_spawn : forall s t k pcs s' evs,
